@@ -138,3 +138,43 @@ def regexp_to_spec(r):
 
 def words(ws):
     return sorted(set(ws), key=lambda w: (len(w), w))
+
+
+# ---------------------------------------------------------------- CFG
+from gambatools.cfg import CFG, Rule, Alternative, Terminal, Variable
+
+
+def _sym(x):
+    return ['v', str(x)] if isinstance(x, Variable) else ['t', str(x)]
+
+
+def build_cfg(s, check=True):
+    alts = {}
+    R = []
+    for lhs, aid, rhs in s['R']:
+        if aid not in alts:
+            alts[aid] = Alternative([Variable(n) if k == 'v' else Terminal(n) for k, n in rhs])
+        R.append(Rule(Variable(lhs), alts[aid]))
+    return CFG(set(Variable(v) for v in s['V']), set(Terminal(a) for a in s['Sigma']), R, Variable(s['S']),
+               check_validity=check)
+
+
+def cfg_to_spec(G):
+    ids = {}
+    R = []
+    for r in G.R:
+        k = ids.setdefault(id(r.alternative), len(ids))
+        R.append([str(r.variable), k, [_sym(x) for x in r.alternative.symbols]])
+    return {'V': sorted(map(str, G.V)), 'Sigma': sorted(map(str, G.Sigma)), 'R': R, 'S': str(G.S)}
+
+
+def canon_cfg_spec(s, keep_order=False, keep_alias=False):
+    """(V, Sigma, S, rules) with alias classes renumbered by first occurrence."""
+    ids = {}
+    R = []
+    for lhs, aid, rhs in s['R']:
+        k = ids.setdefault(aid, len(ids))
+        R.append([lhs, k if keep_alias else 0, [list(x) for x in rhs]])
+    if not keep_order:
+        R = sorted(R)
+    return {'V': sorted(set(s['V'])), 'Sigma': sorted(set(s['Sigma'])), 'S': s['S'], 'R': R}
